@@ -38,6 +38,25 @@ CHECKS = {
         technique="TLC model checking (all interleavings / ample-set reduction) of recorded process networks + real executions "
                   "under the Go runtime deadlock detector",
         engine="tlc"),
+    "C04": dict(
+        category="model_checking",
+        text="A universal statement over data: on the network recorded from the real code for every indicator, strategy and "
+             "compound x configurations, TLC evaluates in every terminal state (all n) that each delivered token's provenance "
+             "satisfies hi <= k + w (+ documented lag) resp. hi <= k for actions. The real code is driven with prefix runs for every "
+             "cut point (bit-for-bit prefix equality) and perturbation runs for every position (earlier outputs must not change); a "
+             "model-reported look-ahead counts only when a perturbation run reproduces it.",
+        design_ref="DESIGN.md 2.1, 5 (C04)", note=PIPE_NOTE,
+        technique="TLC provenance-token model checking of recorded networks + prefix/perturbation replays on the real code",
+        engine="tlc"),
+    "C05": dict(
+        category="model_checking",
+        text="Every strategy (33 base, MACD-RSI, 14 And/Or/Majority/Split/decorator compounds) x configurations x n in 0..2w+2: "
+             "TLC on the recorded network derives the warm-up (leading Shift-fill tokens; compared with IdlePeriod() where declared) "
+             "and evaluates ActCount, ActFill, ActAlign in every terminal state; every instance is run on the real code (count, values "
+             "in {-1,0,1}, Hold prefix) and compared with the model; model-reported shifts are confirmed by perturbation runs.",
+        design_ref="DESIGN.md 2.1, 5 (C05)", note=PIPE_NOTE,
+        technique="TLC model checking of recorded strategy networks + replay of every instance on the real code",
+        engine="tlc"),
     "C17": dict(
         category="model_checking",
         text="TLC checks exhaustively (finite state space, all histories) that the implementation-shaped Ring and Bst of "
